@@ -110,6 +110,12 @@ def step (st : St) (ws : List String) : St × String :=
       let sb := f.b.stagesBuilder
       (st, s!"ids={showNested sb.ids} sys={showNested sb.stages} tl=[{",".intercalate (f.b.threadLocal.map toString)}] barrier={sb.barrier} maxthreads={f.b.maxThreads}")
     | [] => (st, "bad-op")
+  | ["query", name] =>
+    match st.frames with
+    | f :: _ =>
+      let h := f.b.hasSystem (unhex name)
+      (st, s!"has={h} contains={h} n={f.b.numSystems} empty={f.b.isEmpty}")
+    | [] => (st, "bad-op")
   | ["debug"] =>
     match st.frames with
     | f :: _ => (st, hex f.b.writeParSeq)
